@@ -172,64 +172,114 @@ def restore_gen():
     return n
 
 
+def _make_vo(target, timeout, jobs=True):
+    """make one .vo; a timeout under machine load is retried once before it counts"""
+    cmd = ["make", "-f", "Makefile.coq"] + (["-j16"] if jobs else []) + [target]
+    rc, o = sh(cmd, cwd=COQ, timeout=timeout)
+    if rc == 124:
+        log("make %s timed out after %ss, retrying once" % (target, timeout))
+        rc, o = sh(cmd, cwd=COQ, timeout=2 * timeout)
+    return rc, o
+
+
+def _assumption_report(txt, out):
+    """(statements, printed, closed, axiom names, problem) for one property file and the coqc output of it"""
+    names = re.findall(r"^\s*(?:Theorem|Lemma|Example|Corollary)\s+([A-Za-z0-9_']+)", txt, re.M)
+    printed = re.findall(r"^\s*Print Assumptions\s+([A-Za-z0-9_']+)\s*\.", txt, re.M)
+    closed = out.count("Closed under the global context")
+    axn = []
+    blocks = re.findall(r"Axioms:\n((?:[ \t]*\S.*\n?)+)", out)
+    for blk in blocks:
+        for line in blk.splitlines():
+            m = re.match(r"^([A-Za-z0-9_.']+)\s*:", line)
+            if m:
+                axn.append(m.group(1))
+    problem = None
+    missing = [n for n in names if n not in printed]
+    bad = [a for a in axn if not allowed_axiom(a)]
+    if bad:
+        problem = "disallowed axioms: %s" % bad
+    elif missing:
+        problem = "no Print Assumptions under: %s" % ", ".join(missing[:8])
+    elif "Section Variables:" in out:
+        problem = "Print Assumptions inside an open section (reports section variables, not the global context)"
+    elif closed + len(blocks) < len(printed):
+        problem = ("only %d of %d Print Assumptions reported 'Closed under the global context' or a list of axioms"
+                   % (closed + len(blocks), len(printed)))
+    return names, printed, closed, axn, problem
+
+
 def coq_props(files, timeout=1500, slow=()):
-    """Force re-check of the property files (Props/Cxx.v, Inst/Cxxi.v): every theorem in them is an
-    obligation; it is discharged iff the file compiles and Print Assumptions reports no axiom
-    outside the allowed standard-library list.  Returns dict."""
-    res = {"obligations": 0, "discharged": 0, "axioms": [], "failed": [], "log": "", "theorems": []}
+    """Force re-check of the property files (Props/Cxx.v, Inst/Cxxi.v): every theorem, corollary and example in
+    them is an obligation; it is discharged iff the file compiles, every statement is followed by its
+    Print Assumptions and each of those reports 'Closed under the global context' or only axioms of the allowed
+    standard-library list.  Returns dict."""
+    res = {"obligations": 0, "discharged": 0, "axioms": [], "failed": [], "log": "", "theorems": [], "closed": 0, "printed": 0}
+    logdir = "%s/build/coqlogs" % V
+    os.makedirs(logdir, exist_ok=True)
     with Lock("coq"):
         restore_gen()
         coq_makefile()
         # expensive instances: rebuilt by make only when what they depend on (the generated files) changed;
-        # an up-to-date .vo was checked by the kernel against exactly the present inputs
+        # an up-to-date .vo was checked by the kernel against exactly the present inputs. The coqc output of the
+        # last real compilation is kept beside the build so that its Print Assumptions lines are read on every run.
         for f in slow:
             src = "%s/%s" % (COQ, f)
             txt = open(src).read()
+            side = "%s/%s.log" % (logdir, f.replace("/", "_"))
+            vo = src[:-2] + ".vo"
+            rc, o = _make_vo(f[:-2] + ".vo", timeout)
+            if rc == 0 and ("COQC " + f) in o:
+                with open(side, "w") as fh:
+                    fh.write(o)
+            elif rc == 0 and not os.path.exists(side):
+                # up to date but compiled by an earlier version of the framework: compile once more for the record
+                if os.path.exists(vo):
+                    os.remove(vo)
+                rc, o = _make_vo(f[:-2] + ".vo", timeout, jobs=False)
+                if rc == 0:
+                    with open(side, "w") as fh:
+                        fh.write(o)
+            res["log"] += o
             names = re.findall(r"^\s*(?:Theorem|Lemma|Example|Corollary)\s+([A-Za-z0-9_']+)", txt, re.M)
             res["obligations"] += len(names)
             res["theorems"] += names
-            rc, o = sh(["make", "-f", "Makefile.coq", "-j16", f[:-2] + ".vo"], cwd=COQ, timeout=timeout)
-            res["log"] += o
             if rc != 0:
                 res["failed"].append({"file": f, "log": o[-3000:]})
-            else:
-                res["discharged"] += len(names)
+                continue
+            _, printed, closed, axn, problem = _assumption_report(txt, open(side).read())
+            res["axioms"] += sorted(set(axn))
+            if problem:
+                res["failed"].append({"file": f, "log": problem})
+                continue
+            res["discharged"] += len(names)
+            res["closed"] += closed
+            res["printed"] += len(printed)
         for f in files:
             src = "%s/%s" % (COQ, f)
             txt = open(src).read()
-            names = re.findall(r"^\s*(?:Theorem|Lemma|Example|Corollary)\s+([A-Za-z0-9_']+)", txt, re.M)
-            res["obligations"] += len(names)
-            res["theorems"] += names
             vo = src[:-2] + ".vo"
             # dependencies first (incremental), then the file itself, always
-            rc, o = sh(["make", "-f", "Makefile.coq", "-j16", f[:-2] + ".vo"], cwd=COQ, timeout=timeout)
+            rc, o = _make_vo(f[:-2] + ".vo", timeout)
             if rc == 0:
                 if os.path.exists(vo):
                     os.remove(vo)
-                rc, o = sh(["make", "-f", "Makefile.coq", f[:-2] + ".vo"], cwd=COQ, timeout=timeout)
+                rc, o = _make_vo(f[:-2] + ".vo", timeout, jobs=False)
             res["log"] += o
+            names, printed, closed, axn, problem = _assumption_report(txt, o if rc == 0 else "")
+            res["obligations"] += len(names)
+            res["theorems"] += names
             if rc != 0:
                 res["failed"].append({"file": f, "log": o[-3000:]})
                 continue
-            closed = o.count("Closed under the global context")
-            ax = re.findall(r"^Axioms:\n((?:.+\n)+?)(?=\S|\Z)", o, re.M)
-            n_print = len(re.findall(r"^\s*Print Assumptions", txt, re.M))
-            axn = []
-            for blk in re.findall(r"Axioms:\n((?:[ \t]*\S.*\n?)+)", o):
-                for line in blk.splitlines():
-                    m = re.match(r"^([A-Za-z0-9_.']+)\s*:", line)
-                    if m:
-                        axn.append(m.group(1))
-            bad = [a for a in axn if not allowed_axiom(a)]
             res["axioms"] += sorted(set(axn))
-            if bad:
-                res["failed"].append({"file": f, "log": "disallowed axioms: %s" % bad})
+            if problem:
+                res["failed"].append({"file": f, "log": problem})
                 continue
             res["discharged"] += len(names)
-            res.setdefault("closed", 0)
             res["closed"] += closed
-            res.setdefault("printed", 0)
-            res["printed"] += n_print
+            res["printed"] += len(printed)
+    res["axioms"] = sorted(set(res["axioms"]))
     return res
 
 
@@ -362,6 +412,23 @@ def proof_coverage(pr, checker_cmd, extra_trusted, corr):
     }
     cov.update(corr)
     return cov
+
+
+def no_verdict(ctx, reason):
+    """The check could not be carried out on the tree it was given (a harness that does not build or dies, a model out
+    of fuel, an unmet coverage guard, an exception in the driver).  The property is then not shown to hold: that is a
+    violation without a concrete failing input, reported as such; violations recorded before the failure come first."""
+    print("CHECK-COULD-NOT-RUN: %s" % reason[-3000:], file=sys.stderr)
+    violation(ctx, "check-could-not-run",
+              "the check could not be carried out on this tree, so the property is not shown to hold: %s" % reason[-600:],
+              {"no_failing_input": True, "broken_obligation": "build / correspondence stage of ./check %s" % ctx.prop,
+               "reason": reason[-6000:]})
+    cov = {"evaluations": 0, "distinct_nontrivial": 0,
+           "rule": "no case was judged: the run stopped before the correspondence could be evaluated",
+           "samples": [{"no_verdict": reason[-800:]}], "obligations": 0, "discharged": 0,
+           "checker_cmd": "./check %s --tier %s" % (ctx.prop, ctx.tier), "trusted_base": TRUSTED_COMMON,
+           "explanation": "the check could not be carried out; see the replay file named in the VIOLATION line"}
+    return finish(ctx, "other", cov, ["no verdict was reached; nothing is claimed by this run"])
 
 
 def read_tsv(path):
